@@ -622,9 +622,16 @@ func genSession(seed uint64, source string) *Session {
 	s.NamedDocs = r.Chance(1, 4)
 	if r.Chance(1, 4) {
 		// schemas arrive in several files
-		s.SplitSameName = r.Chance(1, 2)
-		s.Splits = make([][]int, len(s.Schemas))
+		if len(s.Splits) == 0 {
+			s.SplitSameName = r.Chance(1, 2)
+		}
+		for len(s.Splits) < len(s.Schemas) {
+			s.Splits = append(s.Splits, nil)
+		}
 		for i := range s.Schemas {
+			if len(s.Splits[i]) > 0 {
+				continue
+			}
 			chunks := splitChunks(s.Schemas[i].Text)
 			if len(chunks) < 3 {
 				continue
